@@ -923,6 +923,29 @@ def _try_propagate(fnode, blk, i, name):
     value = st.value
     if any(isinstance(n, (ast.Yield, ast.YieldFrom, ast.Await, ast.NamedExpr)) for n in ast.walk(value)):
         return False
+    # an object that is modified through the name (accumulator, buffer) is not a temporary for a value
+    load_ids = {id(l) for l in loads}
+    for n in ast.walk(fnode):
+        if isinstance(n, ast.Call) and isinstance(n.func, ast.Attribute) and n.func.attr in MUTATORS:
+            b = n.func.value
+            while isinstance(b, (ast.Subscript, ast.Attribute)):
+                b = b.value
+            if id(b) in load_ids:
+                return False
+        if isinstance(n, (ast.Subscript, ast.Attribute)) and isinstance(n.ctx, (ast.Store, ast.Del)):
+            b = n.value
+            while isinstance(b, (ast.Subscript, ast.Attribute)):
+                b = b.value
+            if id(b) in load_ids:
+                return False
+        if isinstance(n, ast.AugAssign):
+            b = n.target
+            while isinstance(b, (ast.Subscript, ast.Attribute)):
+                b = b.value
+            if isinstance(b, ast.Name) and b.id == name:
+                return False
+    if len(loads) > 1 and isinstance(value, (ast.List, ast.Dict, ast.Set, ast.ListComp, ast.DictComp, ast.SetComp)):
+        return False        # one mutable object shared by several uses
     if len(loads) > 1 and (not _pure_expr(value) or len(ast.unparse(value)) > 100
                            or any(isinstance(n, (ast.ListComp, ast.DictComp, ast.SetComp, ast.GeneratorExp)) for n in ast.walk(value))):
         return False
